@@ -210,6 +210,114 @@ where
     is_client: bool,
 }
 
+/// Read-only digest of every field of a connection (verification hook, off by default)
+#[cfg(feature = "verif-hooks")]
+#[derive(Debug, Clone, PartialEq)]
+pub struct VerifConnState<PacketIdType> {
+    pub protocol_version: Version,
+    pub status: u8,
+    pub is_client: bool,
+    pub pid_free_intervals: Vec<(PacketIdType, PacketIdType)>,
+    pub pid_suback: Vec<PacketIdType>,
+    pub pid_unsuback: Vec<PacketIdType>,
+    pub pid_puback: Vec<PacketIdType>,
+    pub pid_pubrec: Vec<PacketIdType>,
+    pub pid_pubcomp: Vec<PacketIdType>,
+    pub need_store: bool,
+    pub store: Vec<(PacketIdType, u8)>,
+    pub offline_publish: bool,
+    pub auto_pub_response: bool,
+    pub auto_ping_response: bool,
+    pub auto_map_topic_alias_send: bool,
+    pub auto_replace_topic_alias_send: bool,
+    pub topic_alias_recv: Option<(u16, Vec<(u16, String)>)>,
+    #[allow(clippy::type_complexity)]
+    pub topic_alias_send: Option<(u16, Vec<(u16, String)>, Vec<(u16, u16)>)>,
+    pub publish_send_max: Option<u16>,
+    pub publish_recv_max: Option<u16>,
+    pub publish_send_count: u16,
+    pub publish_recv: Vec<PacketIdType>,
+    pub maximum_packet_size_send: u32,
+    pub maximum_packet_size_recv: u32,
+    pub pingreq_user_send_interval_ms: Option<u64>,
+    pub pingreq_keep_alive_ms: u64,
+    pub pingreq_server_keep_alive_ms: Option<u64>,
+    pub pingreq_recv_timeout_ms: u64,
+    pub pingresp_recv_timeout_ms: u64,
+    pub qos2_publish_handled: Vec<PacketIdType>,
+    pub pingreq_send_set: bool,
+    pub pingreq_recv_set: bool,
+    pub pingresp_recv_set: bool,
+    pub packet_builder: (u8, Vec<u8>, usize, u32, Option<usize>, usize),
+}
+
+#[cfg(feature = "verif-hooks")]
+impl<Role, PacketIdType> GenericConnection<Role, PacketIdType>
+where
+    Role: RoleType,
+    PacketIdType: IsPacketId,
+{
+    /// Copy every field into a comparable digest (verification hook, read-only)
+    pub fn verif_state(&self) -> VerifConnState<PacketIdType> {
+        fn sorted<T: IsPacketId>(s: &HashSet<T>) -> Vec<T> {
+            let mut v: Vec<T> = s.iter().copied().collect();
+            v.sort();
+            v
+        }
+        VerifConnState {
+            protocol_version: self.protocol_version,
+            status: match self.status {
+                ConnectionStatus::Disconnected => 0,
+                ConnectionStatus::Connecting => 1,
+                ConnectionStatus::Connected => 2,
+            },
+            is_client: self.is_client,
+            pid_free_intervals: self.pid_man.verif_intervals(),
+            pid_suback: sorted(&self.pid_suback),
+            pid_unsuback: sorted(&self.pid_unsuback),
+            pid_puback: sorted(&self.pid_puback),
+            pid_pubrec: sorted(&self.pid_pubrec),
+            pid_pubcomp: sorted(&self.pid_pubcomp),
+            need_store: self.need_store,
+            store: self
+                .store
+                .get_stored()
+                .iter()
+                .map(|p| (p.packet_id(), p.packet_type() as u8))
+                .collect(),
+            offline_publish: self.offline_publish,
+            auto_pub_response: self.auto_pub_response,
+            auto_ping_response: self.auto_ping_response,
+            auto_map_topic_alias_send: self.auto_map_topic_alias_send,
+            auto_replace_topic_alias_send: self.auto_replace_topic_alias_send,
+            topic_alias_recv: self
+                .topic_alias_recv
+                .as_ref()
+                .map(|t| (t.max(), t.verif_entries())),
+            topic_alias_send: self.topic_alias_send.as_ref().map(|t| {
+                let (entries, free) = t.verif_entries();
+                (t.max(), entries, free)
+            }),
+            publish_send_max: self.publish_send_max,
+            publish_recv_max: self.publish_recv_max,
+            publish_send_count: self.publish_send_count,
+            publish_recv: sorted(&self.publish_recv),
+            maximum_packet_size_send: self.maximum_packet_size_send,
+            maximum_packet_size_recv: self.maximum_packet_size_recv,
+            pingreq_user_send_interval_ms: self.pingreq_user_send_interval_ms,
+            pingreq_keep_alive_ms: self.pingreq_keep_alive_ms,
+            pingreq_server_keep_alive_ms: self.pingreq_server_keep_alive_ms,
+            pingreq_recv_timeout_ms: self.pingreq_recv_timeout_ms,
+            pingresp_recv_timeout_ms: self.pingresp_recv_timeout_ms,
+            qos2_publish_handled: sorted(&self.qos2_publish_handled),
+            pingreq_send_set: self.pingreq_send_set,
+            pingreq_recv_set: self.pingreq_recv_set,
+            pingresp_recv_set: self.pingresp_recv_set,
+            packet_builder: self.packet_builder.verif_state(),
+        }
+    }
+}
+
 /// Type alias for Connection with u16 packet ID (standard case)
 ///
 /// This is the standard Connection type that most applications will use.
